@@ -56,8 +56,21 @@ pub enum Finish {
 }
 
 impl Ctx {
+    /// Generated-case budget: the per-driver base number, times the tier multiplier (the quick
+    /// tier runs 6x the base so that it is fixed, substantial work: 20-90 s per check on 16
+    /// cores), times the geometry share passed by `vf`.
     pub fn scale(&self, n: u64) -> u64 {
-        (n * self.scale_pct / 100).max(16)
+        let mult = if self.tier == "quick" {
+            match self.prop.as_str() {
+                "C11" | "C20" => 2, // expensive cases (exhaust-heavy histories, one process per trace)
+                "C23" => 2,
+                "C04" | "C05" | "C07" | "C09" | "C18" => 6,
+                _ => 18,
+            }
+        } else {
+            1
+        };
+        (n * mult * self.scale_pct / 100).max(16)
     }
     fn write_evidence(&self, ev: &Evidence, violations: u64) {
         if let Some(out) = &self.out {
